@@ -219,6 +219,9 @@ impl<B> Call<WithoutBody, B> {
         assert!(!self.analyzed);
 
         self.state.skip_method_body_check = true;
+        // Without a user provided content-length or transfer-encoding header, we
+        // default to chunked the same way as for methods that always have a body.
+        self.state.writer = BodyWriter::new_chunked();
 
         Call {
             request: self.request,
